@@ -132,7 +132,9 @@ func run(c *hl.Ctx) error {
 	g := &lay.Gen{R: r}
 	var jobs []lay.Job
 	// the DESIGN §7 witnesses as programs
-	for _, src := range []string{"'a`b' -> c\n", "'a${x}b' -> c\n", "\"a\\nb\" -> c\n\"ax\\nb\" -> c\n"} {
+	for _, src := range []string{"'a`b' -> c\n", "'a${x}b' -> c\n", "\"a\\nb\" -> c\n\"ax\\nb\" -> c\n",
+		// open finding C17-seq-dotted-actor-in-group
+		"shape: sequence_diagram\n\"a.z\"\nb\ng: {\n  b -> \"a.z\"\n  h: {\n    b -> b\n  }\n}\n"} {
 		for _, e := range []string{"dagre", "elk"} {
 			jobs = append(jobs, lay.Job{Src: src, Engine: e, Render: true, Tag: "witness"})
 		}
